@@ -220,3 +220,36 @@ func extSortSlice(fr *frame, args []value) value {
 	}
 	return nil
 }
+
+// math/bits intrinsics over terms (the pure-Go versions branch six times per call)
+func bitsLen(w int) externalFn {
+	return func(fr *frame, args []value) value {
+		x, ok := args[0].(sv)
+		if !ok {
+			v := asUint64(args[0])
+			n := 0
+			for v != 0 {
+				n++
+				v >>= 1
+			}
+			return n
+		}
+		if isIntTerm(x.t) {
+			unsupported("math/bits.Len on an Int-mode value")
+		}
+		r := smtConstInt(0)
+		for i := 0; i < w && i < x.t.W; i++ {
+			bit := smtBit(x.t, i)
+			r = smtIte(bit, smtConstInt(uint64(i+1)), r)
+		}
+		return fromTerm(r, types.Int)
+	}
+}
+
+func init() {
+	externals["math/bits.Len"] = bitsLen(64)
+	externals["math/bits.Len64"] = bitsLen(64)
+	externals["math/bits.Len32"] = bitsLen(32)
+	externals["math/bits.Len16"] = bitsLen(16)
+	externals["math/bits.Len8"] = bitsLen(8)
+}
